@@ -324,6 +324,11 @@ REMARK_WORDS = ["web", "servers", "permit", "deny", "10", "any", "host", "=", "=
 def gen_remark(rng, *, seq=0, heading: str | None = None, uniq: str = "") -> dict:
     words = [rng.choice(REMARK_WORDS) for _ in range(rng.randint(1, 5))]
     text = " ".join(words)
+    if rng.random() < 0.06:  # long remarks: Cisco takes up to 100 characters of text
+        want = rng.choice([88, 93, 94, 96, 99, 100])
+        while len(text) < want:
+            text += " " + rng.choice(REMARK_WORDS)
+        text = text[:want - len(uniq) - 1 - len(heading or "")].rstrip()
     if uniq:
         text = f"{text} {uniq}"
     if heading is not None:
